@@ -313,6 +313,11 @@ func reifyStruct(opts *options, orig reflect.Value, cfg *Config) Error {
 					if err := reifyInto(fInfo.options, fInfo.value, cfg); err != nil {
 						return err
 					}
+					// the validators of the field's tag see the inlined
+					// value like that of any other field
+					if err := runValidators(fInfo.value.Interface(), fInfo.validatorTags); err != nil {
+						return raiseValidation(cfg.ctx, cfg.metadata, "", err)
+					}
 				case reflect.Slice, reflect.Array:
 					fopts := fieldOptions{opts: fInfo.options, tag: fInfo.tagOptions, validators: fInfo.validatorTags}
 					v, err := reifyMergeValue(fopts, fInfo.value, cfgSub{cfg})
